@@ -226,6 +226,8 @@ Consume(mm, v, at, strict) ==
               (IF (e.st = "ret" /\ ~(mm.enc /\ mm.ctls)) \/ strict
                THEN [m |-> [mm EXCEPT !.lost = TRUE],
                      v |-> v \cup {V("C03", at, "response missing or incomplete for a " \o e.cls.kind \o " command")}
+                             \cup (IF strict /\ e.cls.kind # "hs"
+                                   THEN {V("C12", at, "a command the server had received completely was not (completely) answered when it asked for more input")} ELSE {})
                              \cup (IF "why" \in DOMAIN j /\ j.why \in MetaWhy
                                    THEN {V("C09", at, "column metadata incomplete: " \o j.why)} ELSE {})
                              \cup (IF e.st = "ret" THEN RowsLost(e, at) ELSE {})
@@ -543,11 +545,18 @@ Step ==
                 vundeliv == IF res \in {"panic", "err"} /\ ~mm.fault /\ mm.dead = "" /\ ~mm.lost /\ ~mm.free /\ ~mm.blocked
                                /\ ~mm.eof /\ ~mm.quit /\ ~mm.wpanic /\ mm.panics = << >> /\ ~(mm.ctls /\ ~mm.enc)
                             THEN {V("C01", l, "the connection ended (" \o res \o ") in the middle of a well-formed command stream: commands the client sent never reach the shim")}
+                                 \cup (IF FirstNew(mm.q) # 0 /\ mm.q[FirstNew(mm.q)].cls.cb # ""
+                                       THEN {V("C02", l, "a command never reached its callback " \o mm.q[FirstNew(mm.q)].cls.cb \o ": the connection ended (" \o res \o ") although nothing had failed")}
+                                       ELSE {})
                             ELSE {}
                 \* a rejected login is answered with ERR 1045: written but never flushed is not "received"
                 vrej == IF mm.dead = "authentication rejected" /\ ~mm.fault /\ e.unflushed # 0
                         THEN {V("C11", l, "the ERR packet for the rejected login was never flushed to the client")} ELSE {}
-                vblock == IF mm.blocked /\ ~mm.lost THEN {V("C12", l, "lock-step client blocked: the server waited for input while the client was waiting for a reply")} ELSE {}
+                vblock == (IF mm.blocked /\ ~mm.lost THEN {V("C12", l, "lock-step client blocked: the server waited for input while the client was waiting for a reply")} ELSE {})
+                          \cup (IF mm.blocked /\ ~mm.free /\ ~mm.fault /\ mm.dead = "" /\ FirstNew(mm.q) # 0 /\ mm.q[FirstNew(mm.q)].cls.cb # ""
+                                THEN {V("C02", l, "a command that had arrived completely never reached its callback " \o mm.q[FirstNew(mm.q)].cls.cb \o ": the server waited for more input instead"),
+                                      V("C01", l, "a command that had arrived completely was not delivered to the shim under this read schedule")}
+                                ELSE {})
             IN /\ m' = [mm EXCEPT !.done = TRUE]
                /\ viol' = r0.v \cup vres \cup vsync \cup vblock \cup vpanic \cup vtls \cup vmissed \cup vrefused \cup vhs \cup vundeliv \cup vrej
        [] OTHER -> UNCHANGED <<m, viol>>
